@@ -1,5 +1,5 @@
 (* C11 — Saving a model to .ode and loading it back preserves the model. *)
-From GX Require Import Base Expr Topo Ode Target Sem Codegen Load Save Perm Annot LoadPerm SaveLoad Parse ParseItems.
+From GX Require Import Base Expr Topo Ode Target Sem Codegen Load Save Perm Annot LoadPerm SaveLoad Parse ParseItems Lex.
 From Coq Require Import Permutation.
 Open Scope string_scope.
 Open Scope list_scope.
@@ -115,3 +115,17 @@ Theorem C11_reading_the_token_text_of_an_item_list_gives_the_item_list :
   forall items, (forall i, In i items -> writable_item i) -> parse_items (print_items items) = Some items.
 Proof. exact parse_print_items. Qed.
 Print Assumptions C11_reading_the_token_text_of_an_item_list_gives_the_item_list.
+
+(* down to the characters: the lexer (Lex.lex: NUMBER, VARIABLE and operator terminals of ode.lark, white space ignored,
+   longest match) reads every rendered sequence of source tokens back, and characters -> tokens -> expression inverts
+   printing followed by rendering - for every writable expression and every way of spelling its tokens *)
+Theorem C11_the_lexer_reads_back_every_rendered_token_sequence :
+  forall l, Forall (fun t => good t = true) l -> lex (render l) = Some (map tok_of l).
+Proof. exact lex_render. Qed.
+Print Assumptions C11_the_lexer_reads_back_every_rendered_token_sequence.
+
+Theorem C11_the_characters_of_a_written_expression_are_read_back_as_the_expression :
+  forall e l, writable e -> Forall (fun t => good t = true) l -> map tok_of l = print_expr e ->
+    parse_string (render l) = Some e.
+Proof. exact parse_rendered. Qed.
+Print Assumptions C11_the_characters_of_a_written_expression_are_read_back_as_the_expression.
